@@ -181,6 +181,20 @@ def run_all(run):
         keys_before = sorted(map(str, td.keys(True, True)))
         h = lambda t: t.clone(False).set("z", t.get("a") * 2) if not isinstance(t, LazyStackedTensorDict) or getattr(t, "hook_in", None) is None else t.set("z", t.get("a") * 2)
         judge(run, "ext.lazy_set", {"batch": list(b), "in_dim": i, "out_dim": 0}, h, i, 0, (td,), "lazy_set")
+        # ... and write a value that does NOT depend on the vmapped input: a closure constant, or an entry of an in_dims=None argument
+        inner_b = tuple(x for j, x in enumerate(b) if j != i % r)
+        nconst = 3
+        for d in inner_b:
+            nconst *= d
+        const = torch.arange(500, 500 + nconst).reshape(*inner_b, 3)
+        hc = lambda t, const=const: (t if getattr(t, "hook_in", None) is not None else t.clone(False)).set("shared", const)
+        judge(run, "ext.lazy_set_const", {"batch": list(b), "in_dim": i, "out_dim": 0, "from": "closure"}, hc, i, 0, (td,), "lazy_set_const")
+        y = TensorDict({"b": const}, batch_size=inner_b)
+        def hy(t, y):
+            t = t if getattr(t, "hook_in", None) is not None else t.clone(False)
+            t = t.set("shared", y["b"])
+            return t.set("mixed", t.get("a")[..., :1] + y["b"][..., :1])
+        judge(run, "ext.lazy_set_const", {"batch": list(b), "in_dim": i, "out_dim": 0, "from": "in_dims=None argument"}, hy, (i, None), 0, (td, y), "lazy_set_const_arg")
         if sorted(map(str, td.keys(True, True))) != keys_before:
             run.oracle_fail("ext.lazy_set", {"batch": list(b), "in_dim": i}, "the vmapped function's set() leaked a new entry into the input lazy stack", fingerprint="lazy_set_leak")
     # ---- (e) locked inputs reused across calls with in-place writes in between (memoised _add_batch_dim)
